@@ -46,7 +46,7 @@ def gate_cases(draw, tier):
              "a": [draw(phases())]}
     elif kind == "custom":
         b = {"k": "g", "g": "Q", "a": [draw(st.integers(1, 2)),
-                                       draw(st.integers(0, 2))]}
+                                       draw(st.integers(0, 4))]}
     elif kind == "controlled":
         b = {"k": "g", "g": "C", "a": [draw(inner_gates())]}
     else:
@@ -123,7 +123,7 @@ def pure_circuits(draw, dom, max_boxes, max_width, unitary_only=False):
                 and draw(st.integers(0, 4)) == 0:
             # a user-defined gate in place of a named one
             b = {"k": "g", "g": "Q", "a": [len(specs.bdom(b)),
-                                           draw(st.integers(0, 2))]}
+                                           draw(st.integers(0, 4))]}
             if draw(st.booleans()):
                 b["dag"] = True
         if unitary_only and b["k"] == "g" and b["g"] in (
